@@ -60,6 +60,16 @@ pub enum Plan {
     Sizes(Vec<usize>),
 }
 
+thread_local! {
+    /// When set, the checks that try several read plans per message (C02, C07, C10) use exactly these instead of
+    /// their own list: the fuzz targets decode the plan from the fuzzer's bytes.
+    pub static PLAN_OVERRIDE: std::cell::RefCell<Option<Vec<Plan>>> = std::cell::RefCell::new(None);
+}
+
+pub fn plan_override() -> Option<Vec<Plan>> {
+    PLAN_OVERRIDE.with(|p| p.borrow().clone())
+}
+
 impl Plan {
     pub fn sizes(&self, len: usize) -> Vec<usize> {
         match self {
